@@ -46,6 +46,11 @@ fn judge_and_run(out: &mut Out, toks: &[Tok], src: &str, hook: bool) {
     let rr = exec::run_ref(ast, &m, true);
     let ir = exec::run_impl(src, Some(tree), &m, Entry::TreeMut, false);
     out.eval();
+    // the same program through the read-only path (the property is about the language, not one entry point)
+    let rr_imm = exec::run_ref(ast, &m, false);
+    let ir_imm = exec::run_impl(src, Some(tree), &m, Entry::TreeImm, false);
+    out.eval();
+    exec::compare(out, "sequence/read-only", src, &m, &rr_imm, &ir_imm, Entry::TreeImm);
     if exec::compare(out, "sequence", src, &m, &rr, &ir, Entry::TreeMut) {
         out.count("sequences evaluated and compared");
         out.sample(|| format!("`{}` == {} => {} ; effects {}", src, ast.sx(), ir.got.show(), exec::show_effects(&ir.effects)));
